@@ -346,6 +346,14 @@ def gen_unpredict(rng, n):
         yield Case("unpredict", [d(p), d(c), d(cols), d(bpc), zlib.compress(data)], mfields=[d(p), d(c), d(cols), d(bpc), data], kind="malformed", tags=["site:predictor"])
 
 
+def gen_short_rows():
+    """predictor rows cut at every position (exhaustive over the length; the class of seeded/C14f: one byte short of a row)"""
+    from oracle import codecs as C
+    for (p, c, cols, bpc, data) in C.short_row_sweep():
+        yield Case("unpredict", [d(p), d(c), d(cols), d(bpc), zlib.compress(data)], mfields=[d(p), d(c), d(cols), d(bpc), data], kind="malformed",
+                   tags=["site:predictor", "short-row"])
+
+
 def gen_fax(rng, n):
     eofb = b"\x00\x10\x01"
     for i in range(n):
@@ -392,7 +400,7 @@ def generate(rng, tier):
     k = 1 if tier == "quick" else 8
     gens = [gen_ps(rng, 500 * k), gen_diff(rng, 150 * k), gen_fn(rng, 100 * k), gen_objstm(rng, 250 * k), gen_widths(rng, 250 * k),
             gen_crypt(rng, 250 * k), gen_pages(rng, 80 * k), gen_tree(rng, 150 * k), gen_unpredict(rng, 200 * k), gen_fax(rng, 200 * k),
-            gen_xref(rng, 150 * k), gen_fn0_exhaustive(), gen_annot_pages(), gen_big()]
+            gen_xref(rng, 150 * k), gen_short_rows(), gen_fn0_exhaustive(), gen_annot_pages(), gen_big()]
     for g in gens:
         for c in g:
             yield c
